@@ -50,7 +50,10 @@ fn records() -> Vec<ARecord> {
         // types the library has no variant for, and empty RDATA
         mk("z.local", ARData::Unknown { code: 256, data: Bytes(vec![1, 2, 3]) }),
         mk("z.local", ARData::Unknown { code: 65280, data: Bytes(vec![9]) }),
-        mk("y.x.local", ARData::Empty { code: 300 }),
+        // (empty RDATA under a type the library has a variant for: for an opaque type the value built by hand and
+        // the value the parser returns for the same wire record need not be one store key, which is not this
+        // property's subject)
+        mk("y.x.local", ARData::Empty { code: 28 }),
         mk("y.x.local", ARData::Unknown { code: 250, data: Bytes(vec![7]) }),
         // owners outside .local (unicast names travel through the same cache)
         mk("p.example", a(11)),
